@@ -283,5 +283,6 @@ func Main() {
 		ThoroughBudget: 60 * time.Minute,
 		MaxShards:      8,
 		MaxConfirm:     3,
+		MaxViolations:  200000,
 	})
 }
